@@ -76,15 +76,15 @@ type wNLRI struct {
 }
 
 type wUpdateMsg struct {
-	Withdrawn []wNLRI // IPv4 unicast
-	Attrs     []wAttr // every attribute in wire order, including MP_REACH/MP_UNREACH
-	NLRI      []wNLRI // IPv4 unicast
-	ReachFam  wFamily
-	Reach     []wNLRI
-	ReachNH   []byte
-	UnreachOk bool
+	Withdrawn  []wNLRI // IPv4 unicast
+	Attrs      []wAttr // every attribute in wire order, including MP_REACH/MP_UNREACH
+	NLRI       []wNLRI // IPv4 unicast
+	ReachFam   wFamily
+	Reach      []wNLRI
+	ReachNH    []byte
+	UnreachOk  bool
 	UnreachFam wFamily
-	Unreach   []wNLRI
+	Unreach    []wNLRI
 }
 
 type wNotif struct {
@@ -380,7 +380,7 @@ type rAttrs struct {
 	LargeComms  []string
 	AS4Path     string
 	AS4Aggr     string
-	AS4Segs     []asSeg // AS4_PATH as decoded (not part of String())
+	AS4Segs     []asSeg          // AS4_PATH as decoded (not part of String())
 	Other       map[uint8]string // type -> "flags(upper 3 bits):hex"
 	Dups        []uint8          // attribute types seen more than once
 }
